@@ -44,6 +44,21 @@ func VerifC04EvalCode() {
 		varnames = append(varnames, "kw")
 	}
 	code := &py.Code{Argcount: int32(argcount), Kwonlyargcount: int32(kwonly), Nlocals: int32(len(varnames)), Varnames: varnames, Flags: flags, Name: "f"}
+	// parameters captured by an inner function live in cells: none of them, all of them
+	// (*args and **kwargs included), or only the last slot
+	switch verifChoice("cells", 3) {
+	case 1:
+		code.Cellvars = append([]string{}, varnames...)
+	case 2:
+		if len(varnames) > 0 {
+			code.Cellvars = []string{varnames[len(varnames)-1]}
+		}
+	}
+	code.InitCell2arg()
+	isCell := map[string]int{}
+	for i, n := range code.Cellvars {
+		isCell[n] = i
+	}
 
 	// actuals
 	args := make([]py.Object, npos)
@@ -156,7 +171,17 @@ func VerifC04EvalCode() {
 	verifAssert(err == nil, "a legal call binds without error")
 	g, ok := res.(*py.Generator)
 	verifAssert(ok, "prepared frame available")
-	fl := g.Frame.Localsplus
+	fl := append([]py.Object{}, g.Frame.Localsplus[:len(varnames)]...)
+	// a parameter that is a cell variable is delivered in its cell
+	for i, n := range varnames {
+		if ci, cell := isCell[n]; cell {
+			c, ok := g.Frame.CellAndFreeVars[ci].(*py.Cell)
+			verifAssert(ok, "a captured parameter has a cell")
+			if ok {
+				fl[i] = c.Get()
+			}
+		}
+	}
 	for i := 0; i < total; i++ {
 		verifAssert(fl[i] == slots[i], "each parameter receives exactly the argument the binding algorithm assigns")
 	}
